@@ -1331,3 +1331,53 @@ M("e8-outer-scope-rebound-unmuxed", "C14", "fire E8", "src/circuit.rs",
 M("e8-mux-operands-swapped", "C14", "fire E8", "src/circuit.rs",
   """                    binding[i] = self.push_mux(condition, if_true, if_false);""",
   """                    binding[i] = self.push_mux(condition, if_false, if_true);""", "merged environment takes b when the condition holds")
+
+# ---------------------------------------------------------------- C04 O8 quiet variants / seed C04-c
+M("o8-quiet-roots-in-a-loop", "C04", "quiet", "src/circuit.rs",
+  """        output_gate_stack.extend(self.panic_gates.result.panic_type.iter());
+        output_gate_stack.extend(self.panic_gates.result.start_line.iter());
+        output_gate_stack.extend(self.panic_gates.result.start_column.iter());
+        output_gate_stack.extend(self.panic_gates.result.end_line.iter());
+        output_gate_stack.extend(self.panic_gates.result.end_column.iter());""",
+  """        let panic = &self.panic_gates.result;
+        for wires in [
+            &panic.panic_type,
+            &panic.start_line,
+            &panic.start_column,
+            &panic.end_line,
+            &panic.end_column,
+        ] {
+            output_gate_stack.extend(wires.iter());
+        }""", "behaviour-preserving: the five root vectors registered in a loop")
+M("o8-quiet-roots-filtered-correctly", "C04", "quiet", "src/circuit.rs",
+  """        output_gate_stack.extend(self.panic_gates.result.panic_type.iter());
+        output_gate_stack.extend(self.panic_gates.result.start_line.iter());
+        output_gate_stack.extend(self.panic_gates.result.start_column.iter());
+        output_gate_stack.extend(self.panic_gates.result.end_line.iter());
+        output_gate_stack.extend(self.panic_gates.result.end_column.iter());""",
+  """        let panic = &self.panic_gates.result;
+        for wires in [
+            &panic.panic_type,
+            &panic.start_line,
+            &panic.start_column,
+            &panic.end_line,
+            &panic.end_column,
+        ] {
+            output_gate_stack.extend(wires.iter().filter(|&&w| w >= shift));
+        }""", "behaviour-preserving: constants are not put on the worklist (they are skipped when popped anyway)")
+M("o8-roots-filtered-off-by-one", "C04", "fire O8", "src/circuit.rs",
+  """        output_gate_stack.extend(self.panic_gates.result.panic_type.iter());
+        output_gate_stack.extend(self.panic_gates.result.start_line.iter());
+        output_gate_stack.extend(self.panic_gates.result.start_column.iter());
+        output_gate_stack.extend(self.panic_gates.result.end_line.iter());
+        output_gate_stack.extend(self.panic_gates.result.end_column.iter());""",
+  """        let panic = &self.panic_gates.result;
+        for wires in [
+            &panic.panic_type,
+            &panic.start_line,
+            &panic.start_column,
+            &panic.end_line,
+            &panic.end_column,
+        ] {
+            output_gate_stack.extend(wires.iter().filter(|&&w| w > shift));
+        }""", "seed C04-c: the first emitted gate is never a root")
